@@ -238,3 +238,58 @@ Theorem C08_tzlocal_wall_partial : forall r ds w f u,
   tzlocal_observe_wall r w f = posix_observe r u.
 Proof. exact tzlocal_posix_wall_lemma. Qed.
 Print Assumptions C08_tzlocal_wall_partial.
+
+(* ============================================================================================
+   REGENERATED-FROM-SOURCE obligations.  coq/gen/PosixGen.v is rewritten by harness/gen_posix.py
+   from the Python AST of /repo/src/dateutil/tz/{_common,tz}.py on every run; the theorems below
+   say that the regenerated definitions ARE the hand models used by all theorems above, for all
+   inputs.  A changed operator, bound, branch or call in the translated methods breaks them; a
+   construct outside the translator's accepted subset aborts the translation of that method
+   (TRANSLATE-ERROR) and the file stops compiling here.  (The import sits here, not at the top, so
+   that the theorems above are still reported as discharged when this part breaks.) *)
+From V Require Import posix.PosixGenBase gen.PosixGen posix.PosixGenThm.
+
+(* tz._common.tzrangebase: _dst_base_offset, _naive_isdst, is_ambiguous, _isdst, utcoffset, dst,
+   tzname, fromutc; tz.tzrange.transitions *)
+Theorem C08_gen_tzrangebase :
+  (forall z, gen_dst_base_offset z = dst_base z) /\
+  (forall dt a b, gen_naive_isdst dt (a, b) = naive_isdst dt a b) /\
+  (forall z y, gen_transitions z y = transitions z y) /\
+  (forall z w, gen_is_ambiguous z w = is_ambiguous z w) /\
+  (forall z w f, gen_isdst z w f = isdst z w f) /\
+  (forall z w f, gen_utcoffset z w f = utcoffset z w f) /\
+  (forall z w f, gen_dst z w f = dst z w f) /\
+  (forall z w f, gen_tzname z w f = tzname z w f) /\
+  (forall z u, gen_fromutc z u = fromutc z u).
+Proof. exact gen_tzrangebase_lemma. Qed.
+Print Assumptions C08_gen_tzrangebase.
+
+(* tz.tzstr._delta (keyword dictionary -> relativedelta through the call table) *)
+Theorem C08_gen_tzstr_delta : forall std_off dst_off x isend,
+  gen_tzstr_delta std_off dst_off x isend = tzstr_delta std_off dst_off x isend.
+Proof. exact gen_tzstr_delta_eq. Qed.
+Print Assumptions C08_gen_tzstr_delta.
+
+(* tz.tzlocal: _naive_is_dst, is_ambiguous, _isdst, utcoffset, dst, tzname *)
+Theorem C08_gen_tzlocal : forall libc std alt daylight sn dn w f,
+  gen_l_naive_is_dst libc std alt daylight sn dn w = l_naive_is_dst libc std w /\
+  gen_l_is_ambiguous libc std alt daylight sn dn w = l_is_ambiguous libc std alt daylight w /\
+  gen_l_isdst libc std alt daylight sn dn w f = l_isdst libc std alt daylight w f /\
+  gen_l_utcoffset libc std alt daylight sn dn w f = l_utcoffset libc std alt daylight w f /\
+  gen_l_dst libc std alt daylight sn dn w f = l_dst libc std alt daylight w f /\
+  gen_l_tzname libc std alt daylight sn dn w f = l_tzname libc std alt daylight sn dn w f.
+Proof. exact gen_tzlocal_lemma. Qed.
+Print Assumptions C08_gen_tzlocal.
+
+(* tz.tzrange.__init__ (offset defaults, default rules, hasdst; a caller-supplied start / end is read
+   through PosixGenBase.delta_of_darg) and tz.tzstr.__init__ (parser call, ValueError for unparsed /
+   unused tokens, GMT/UTC sign flip, tzrange.__init__(..., start=False, end=False), the two _delta
+   calls, hasdst) *)
+Theorem C08_gen_tzrange_init : forall sa so da do_ st en,
+  gen_tzrange_init sa so da do_ st en = tzrange_init sa so da do_ st en.
+Proof. exact gen_tzrange_init_eq. Qed.
+Print Assumptions C08_gen_tzrange_init.
+
+Theorem C08_gen_tzstr_init : forall s po, gen_tzstr_init s po = tzstr_init s po.
+Proof. exact gen_tzstr_init_eq. Qed.
+Print Assumptions C08_gen_tzstr_init.
